@@ -78,7 +78,9 @@ def build(chk):
     dims = (2, 3) if chk.tier == 'quick' else (2, 3, 4)
     for d in dims:
         labels = NAMES[:d]
-        for cfg in ('class', 'name', 'instance', 'dict'):
+        for cfg in ('class', 'name', 'instance', 'dict', 'class_after_refit'):
+            if cfg == 'class_after_refit' and d != 2:
+                continue
             consts = [(), (labels[1],)] if cfg in ('class', 'dict') else [()]
             for const in consts:
                 tag = 'd%d.%s.const_%s' % (d, cfg, ''.join(const) or 'none')
@@ -89,7 +91,7 @@ def build(chk):
 
                 def mkdist(I=I, cfg=cfg, labels=labels, fam=fam):
                     G, Uc = I.resolve(Gq), I.resolve(Uq)
-                    if cfg == 'class':
+                    if cfg in ('class', 'class_after_refit'):
                         return G
                     if cfg == 'name':
                         return Gq
@@ -101,8 +103,21 @@ def build(chk):
                         fam[i] = 'UniformUnivariate' if (i == 0 or i % 4 == 1) else 'GaussianUnivariate'
                     return out
 
-                def body(c, I=I, labels=labels, const=const, mkdist=mkdist):
-                    m = gm.fit_model(I, c, labels, mkdist(), constant=const)
+                def body(c, I=I, labels=labels, const=const, mkdist=mkdist, cfg=cfg):
+                    m0 = None
+                    if cfg == 'class_after_refit':
+                        # history: the same object was fitted on another table with the same labels and sampled from
+                        n0 = Sym(ir.var('n0', 'I'))
+                        c.assume(ir.ge(n0.t, 2))
+                        X0 = pdmodel.Frame(list(labels), {l: Lane(ir.var('y_%s@i' % l), n0) for l in labels}, n0)
+                        for l in labels:
+                            c.assume(ir.gt(ir.uf('n_unique', [ir.var('y_%s' % l, 'U')], 'I'), 1))
+                        m0 = I.call_qual(GM, [], {'distribution': mkdist()})
+                        I.call_method(m0, 'fit', [X0])
+                        I.call_method(m0, 'sample', [Sym(ir.var('k0', 'I'))])
+                        State.rng = ir.var('G0', 'U')
+                        c.out['ev0'] = len(c.events)
+                    m = gm.fit_model(I, c, labels, mkdist(), constant=const, model=m0)
                     c.assume(ir.ge(K, 1))
                     S = I.call_method(m, 'sample', [Sym(K)])
                     R = m.attrs['correlation']
@@ -150,7 +165,7 @@ def build(chk):
                                function=GM + '._fit_columns', replay=sample_replay,
                                clause='each column gets its own, newly created marginal of the configured family '
                                       '[%s]' % st['classes']))
-                    draws = [e for e in r.events if e.kind == 'mvn_draw']
+                    draws = [e for e in r.events[st.get('ev0', 0):] if e.kind == 'mvn_draw']
                     chk.add(Ob('C01.%s.one_normal_draw.%d' % (tag, kr), [], ir.const(len(draws) == 1),
                                backends=('syntactic',), function=GM + '._get_normal_samples',
                                clause='one multivariate normal draw drives the sample'))
